@@ -19,7 +19,7 @@ import (
 
 type c11Init struct {
 	name  string
-	class string // absent | valid | valid-ws | unusable | parent-missing
+	class string                  // absent | valid | valid-ws | unusable | parent-missing
 	setup func(dir string) string // prepares the sandbox, returns the key path
 }
 
@@ -32,7 +32,13 @@ func c11Key(seed byte) []byte {
 }
 
 func c11Inits() []c11Init {
-	b64 := func(n int) string { k := make([]byte, n); for i := range k { k[i] = byte(i*5 + 1) }; return base64.StdEncoding.EncodeToString(k) }
+	b64 := func(n int) string {
+		k := make([]byte, n)
+		for i := range k {
+			k[i] = byte(i*5 + 1)
+		}
+		return base64.StdEncoding.EncodeToString(k)
+	}
 	file := func(content string, mode os.FileMode) func(string) string {
 		return func(dir string) string {
 			p := filepath.Join(dir, "the.key")
@@ -418,7 +424,7 @@ func c11Post(c *Ctx, m *Part) {
 func init() {
 	register(&PropDef{
 		ID: "C11", Level: "model_checking",
-		Rule: "explicit-state search with the real CLI: 18 initial states of the key path (absent; valid with mode 0600 / 0644; valid + LF / CRLF; empty; 32-, 63-, 65-, 66-, 96-, 128-byte keys; not base64; base64url alphabet; 64 raw bytes; directory; parent missing; below a regular file) x EVERY sequence of 1..3 operations over {redact in1 --encrypt, redact in2 --encrypt, redact without --encrypt, decrypt} = 18 x 84 traces, each replayed from a fresh sandbox; after every transition the observed key path (type, bytes, mode), exit status and output file are compared with the reference model (absent -> valid(K'), 64 bytes, base64, 0600, reads back, ciphertexts under the stored key; valid -> untouched, ciphertexts under K; valid with trailing white space: accepted or refused, untouched either way; unusable / parent missing -> non-zero exit, untouched, no output line, no plaintext; no --encrypt and decrypt never touch the key path; decrypt succeeds exactly with a valid key). states = distinct (initial state, abstract state) pairs reached; plus 60 CLI generations + 2000 GenerateKey calls pairwise distinct (observation) and one strace run for write ordering",
+		Rule:        "explicit-state search with the real CLI: 18 initial states of the key path (absent; valid with mode 0600 / 0644; valid + LF / CRLF; empty; 32-, 63-, 65-, 66-, 96-, 128-byte keys; not base64; base64url alphabet; 64 raw bytes; directory; parent missing; below a regular file) x EVERY sequence of 1..3 operations over {redact in1 --encrypt, redact in2 --encrypt, redact without --encrypt, decrypt} = 18 x 84 traces, each replayed from a fresh sandbox; after every transition the observed key path (type, bytes, mode), exit status and output file are compared with the reference model (absent -> valid(K'), 64 bytes, base64, 0600, reads back, ciphertexts under the stored key; valid -> untouched, ciphertexts under K; valid with trailing white space: accepted or refused, untouched either way; unusable / parent missing -> non-zero exit, untouched, no output line, no plaintext; no --encrypt and decrypt never touch the key path; decrypt succeeds exactly with a valid key). states = distinct (initial state, abstract state) pairs reached; plus 60 CLI generations + 2000 GenerateKey calls pairwise distinct (observation) and one strace run for write ordering",
 		Assumptions: []string{"'unreadable' key files cannot be produced when running as root", "distinctness of generated keys is an observation, not a decision", "a valid key followed by a newline may be accepted or refused; both outcomes must leave it untouched"},
 		Run:         c11Run, Post: c11Post,
 	})
